@@ -40,6 +40,8 @@ REQUIRED_THEOREMS = [
     "Acn.C10.sort_perm_of_distinct_keys", "Acn.C10.run_shift", "Acn.C10.run_shift_anchored",
     "Acn.C10.run_shift_from", "Acn.C10.scripted_schedShiftInvariant", "Acn.C10.run_perm_sessions_core", "Acn.C10.anchor_of_event", "Acn.C10.run_perm_sessions",
     "Acn.C10.scripted_ignoresEvsePilot",
+    "Acn.C10.run_shift_core", "Acn.C10.run_shift_aligned", "Acn.C10.run_perm_constraints",
+    "Acn.C10.run_perm_sessions_sorted",
 ]
 BUDGET = {"quick": 200, "thorough": 1600, "search": 1200}
 TRUSTED = ["CPython heapq / sorted (stable) / dict insertion order; numpy `@`, `sum`, `abs` (a changed summation "
